@@ -63,7 +63,11 @@ func (g *gen) execBlock(b *ssa.BasicBlock, st *State, cur *loopInfo) {
 	// that is defined on every path to this block
 	g.varAt = map[string]ssa.Value{}
 	g.lastCall = map[string]*Val{}
+	g.lastArgs = map[string][]*Val{}
 	if d := b.Idom(); d != nil {
+		for k, v := range g.lastArgsBlock[d] {
+			g.lastArgs[k] = v
+		}
 		for k, v := range g.varAtBlock[d] {
 			g.varAt[k] = v
 		}
@@ -74,6 +78,7 @@ func (g *gen) execBlock(b *ssa.BasicBlock, st *State, cur *loopInfo) {
 	defer func() {
 		g.varAtBlock[b] = g.varAt
 		g.lastCallBlock[b] = g.lastCall
+		g.lastArgsBlock[b] = g.lastArgs
 		g.curBlk = nil
 	}()
 	for _, ins := range b.Instrs {
@@ -108,6 +113,11 @@ func (g *gen) execInstr(ins ssa.Instruction, st *State, b *ssa.BasicBlock) {
 		// keep the latest binding of source-level variables for invariants
 		if id, ok := x.Expr.(interface{ String() string }); ok && !x.IsAddr {
 			_ = id
+		}
+		// only variables: a DebugRef is also emitted for the field identifier of a
+		// selector expression, which must not shadow a local of the same name
+		if vo, isVar := x.Object().(*types.Var); x.Object() != nil && (!isVar || vo.IsField()) {
+			break
 		}
 		if x.Object() != nil && !x.IsAddr {
 			v := x.X
